@@ -413,7 +413,7 @@ def st_cases():
         "drop": st.lists(st.sampled_from(["label_entity_id", "auth_atom_id", "auth_comp_id", "pdbx_PDB_ins_code", "label_alt_id", "pdbx_PDB_model_num",
                                           "type_symbol", "pdbx_formal_charge"]), max_size=4, unique=True),
         "order": st.one_of(st.none(), st.integers(0, 10 ** 6)), "label_alias": st.booleans()}))
-    return st.fixed_dictionaries({"atoms": atomtab.st_tables(max_residues=4, max_atoms=6), "null": st.sampled_from(["?", "."]), "dialect": dialect,
+    return st.fixed_dictionaries({"atoms": atomtab.st_tables(max_residues=4, max_atoms=6, shared_positions=True), "null": st.sampled_from(["?", "."]), "dialect": dialect,
                                   "model_numbers": MODEL_NUMBERS})
 
 
